@@ -10,7 +10,7 @@ Msg(f, n) == [i \in 1..n |-> MsgByte(f, i)]
 KeyByte(i) == (i * 31 + 3) % 256
 Key(n) == [i \in 1..n |-> KeyByte(i)]
 
-HmacCases == { [kind |-> "hmac", klen |-> k, mlen |-> m] : k \in {0, 1, 16, 32, 63, 64, 65, 100}, m \in {0, 1, 55, 56, 64, 100} }
+HmacCases == { [kind |-> "hmac", klen |-> k, mlen |-> m] : k \in {0, 1, 16, 32, 63, 64, 65, 100}, m \in {0, 1, 55, 56, 64, 65, 70, 72, 100, 129} }
 PbkdfCases == { [kind |-> "pbkdf2", plen |-> p, slen |-> s, iter |-> it, dklen |-> d] :
                  p \in {0, 8, 70}, s \in {0, 8}, it \in {1, 2, 3}, d \in {1, 32, 33, 64} }
 DigestCases == { [kind |-> "digest", fam |-> 0, len |-> n] : n \in Lens } \cup
